@@ -137,10 +137,92 @@ func runStaleQ(transport, proto string, k int, payload []byte) string {
 	return "r=" + strings.Join(rs, ",") + " up=" + strings.Join(us, ",")
 }
 
+// runD53Soak: n exchanges of ONE long-lived process with a plain-DNS upstream that answers every query at once (the query
+// with QR set), through resolver.DNS and the endpoint manager, 4 at a time.  How many were answered with the upstream's
+// message?  (whatever the resolver counts per exchange must not run out.)
+func runD53Soak(n int) string {
+	pc, err := net.ListenPacket("udp", "127.0.0.1:0")
+	if err != nil {
+		return "ERR " + err.Error()
+	}
+	defer pc.Close()
+	go func() {
+		buf := make([]byte, 2048)
+		for {
+			k, from, err := pc.ReadFrom(buf)
+			if err != nil {
+				return
+			}
+			if k >= 12 {
+				rep := append([]byte{}, buf[:k]...)
+				rep[2] |= 0x80
+				_, _ = pc.WriteTo(rep, from)
+			}
+		}
+	}()
+	ep := &endpoint.DNSEndpoint{Addr: pc.LocalAddr().String()}
+	res := &resolver.DNS{Manager: &endpoint.Manager{
+		Providers:      []endpoint.Provider{endpoint.StaticProvider([]endpoint.Endpoint{ep})},
+		InitEndpoint:   ep,
+		ErrorThreshold: 1 << 30,
+		EndpointTester: func(endpoint.Endpoint) endpoint.Tester {
+			return func(ctx context.Context, testDomain string) error { return nil }
+		},
+	}}
+	var answered, firstBad int64 = 0, -1
+	var mu sync.Mutex
+	var wg sync.WaitGroup
+	next := int64(0)
+	for w := 0; w < 4; w++ {
+		wg.Add(1)
+		go func() {
+			defer wg.Done()
+			buf := make([]byte, 512)
+			for {
+				mu.Lock()
+				i := next
+				next++
+				bad := firstBad
+				mu.Unlock()
+				if i >= int64(n) || bad >= 0 {
+					return
+				}
+				q := lmQuery(int(i%65536), "s"+strconv.FormatInt(i%50, 10))
+				ctx, cancel := context.WithTimeout(context.Background(), 400*time.Millisecond)
+				k, _, err := res.Resolve(ctx, q, buf)
+				cancel()
+				ok := err == nil && k == len(q.Payload) && buf[2]&0x80 != 0 && bytes.Equal(buf[12:k], q.Payload[12:])
+				mu.Lock()
+				if ok {
+					answered++
+				} else if firstBad < 0 {
+					firstBad = i
+				}
+				mu.Unlock()
+			}
+		}()
+	}
+	wg.Wait()
+	if firstBad >= 0 {
+		return fmt.Sprintf("answered=%d/%d first-unanswered=%d", answered, n, firstBad)
+	}
+	return fmt.Sprintf("answered=%d/%d", answered, n)
+}
+
 func init() {
 	areas["staleq"] = func(c *Ctx) error {
 		run := func(l string) {
 			f := strings.Fields(l)
+			if len(f) == 2 && f[0] == "d53soak" {
+				n, _ := strconv.Atoi(f[1])
+				if n < 1 || n > 1000000 {
+					c.Emit(l, "bad-op")
+					return
+				}
+				c.Stat("op:d53soak")
+				c.Emit(l, runD53Soak(n))
+				return
+			}
 			if len(f) != 5 || f[0] != "staleq" {
 				c.Emit(l, "bad-op")
 				return
@@ -162,6 +244,7 @@ func init() {
 			return nil
 		}
 		r := NewRng(c.seed)
+		run("d53soak 70000")
 		for i := 0; i < c.n; i++ {
 			nl := 1 + r.Intn(4)
 			ls := make([]string, nl)
